@@ -65,6 +65,8 @@ def _job(args):
             if ob.status in ('sat', 'sat?'):
                 rec['model'] = ob.model
                 rec['native'] = ob.native
+                # the native input template of a unit is written for the oracle of the unit's FIRST property
+                rec['native_prop'] = u.props[0] if u.props else None
             if ob.status == 'unknown':
                 rec['reason'] = ob.note
             if want_smt2 and ob.status == 'unsat' and ob.kind != 'lemma-app':
